@@ -227,7 +227,20 @@ def run(pid, tier, seed, gate, replay=None):
             rp = C.write_replay(pid, seed, "hybrid", dict(property=pid, stream="hybridsim/colliding-hasher", script=sc, impl_obs=lines,
                                                          oracle=dict(failed_at=o[0], what=o[1]), broken=None))
             violations.append(dict(replay=rp, what=o[1]))
-        extra_cov = dict(fetch_scripts_with_colliding_hashers=len(fs), hybrid_scripts_with_colliding_hashers=len(hs))
+        # the collision model of the disk tier (Hybrid/Collide.v, extracted) against the real store, all keys colliding
+        from . import colcorr as X
+        C.build_ocaml()
+        cs = [X.gen(rng) for _ in range(300 if tier == "thorough" else 40)]
+        ncmp, cbad = X.check(cs)
+        if cbad and not failing and not fbad and not hbad:
+            sc, lines, text = cbad
+            o = H.oracle_c01(sc.split("\n")[0], lines)
+            rp = C.write_replay(pid, seed, "collide", dict(property=pid, stream="hybridsim/collision model", script=sc, impl_obs=lines,
+                                                          oracle=(dict(failed_at=o[0], what=o[1]) if o else None),
+                                                          broken=None if o else f"correspondence hybridsim/collision model: {text}"))
+            violations.append(dict(replay=rp, what=(o[1] if o else text), nofail=not o))
+        extra_cov = dict(fetch_scripts_with_colliding_hashers=len(fs), hybrid_scripts_with_colliding_hashers=len(hs),
+                         collision_model_histories=len(cs), collision_model_loads_compared=ncmp)
     sample = results[min(len(results) - 1, 7)] if results else None
     cov = dict(
         evaluations=len(scripts), distinct_nontrivial=len(nontrivial),
